@@ -9,7 +9,7 @@
   'bound':'pool of 4 / 5 slots, any forest', 'claims':'Slot::child(ap) followed by attachTo (the order setAttr uses) appends a detached slot to the child chain exactly once: the forest predicate holds afterwards and ap names this as its parent; it refuses this==ap'}@*/
 /*@unit {'name':'c04_remove_child', 'props':['C04'], 'entry':'h_remove', 'kind':'bounded', 'defines_quick':['NSLOTS=4'], 'defines_thorough':['NSLOTS=5'], 'unwind_quick':7, 'unwind_thorough':8,
   'bound':'pool of 4 / 5 slots, any forest', 'claims':'Slot::removeChild(ap) takes ap out of its parent\'s child chain and clears ap\'s sibling link; with attachTo(NULL) the forest predicate holds again and every other child keeps its place'}@*/
-/*@unit {'name':'c04_attach_to', 'props':['C04','C02'], 'entry':'h_attach', 'kind':'bounded', 'defines_quick':['NSLOTS=3','ATTACH'], 'defines_thorough':['NSLOTS=4','ATTACH'], 'unwind_quick':6, 'unwind_thorough':7,
+/*@unit {'name':'c04_attach_to', 'props':['C04','C02','C06'], 'entry':'h_attach', 'kind':'bounded', 'defines_quick':['NSLOTS=3','ATTACH'], 'defines_thorough':['NSLOTS=4','ATTACH'], 'unwind_quick':6, 'unwind_thorough':7,
   'bound':'pool of 3 / 4 slots, any forest without base-chain links, any target slot', 'claims':'the gr_slatAttTo case of Slot::setAttr keeps the forest: it refuses self/parent/copied targets and targets below this slot (no cycle), detaches from the old parent first, and the slot ends up exactly once in the new parent\'s chain'}@*/
 /*@unit {'name':'c04_free_slot', 'props':['C04','C03','C06'], 'entry':'h_free', 'kind':'bounded', 'defines_quick':['NSLOTS=3','FREESLOT'], 'defines_thorough':['NSLOTS=3','FREESLOT'], 'unwind_quick':6, 'unwind_thorough':6,
   'bound':'pool of 3 slots (4 exhausts 12 GB in the SAT back end), any forest', 'claims':'Segment::freeSlot detaches the slot from its parent and all its children from it (forest predicate holds over the remaining slots, nothing names the freed slot), moves first/last off it, resets it and pushes it on the free list'}@*/
